@@ -107,6 +107,8 @@ Sem(name, srcs, arg, elems) ==
                                IN IF r = <<>> THEN Res(TRUE, <<>>, None, r, SeqRange(DropN(s, n - k)), -1, FALSE)
                                   ELSE Res(TRUE, <<>>, Some(LastOf(r)), FrontOf(r), SeqRange(DropN(s, n - k)), -1, FALSE)
       [] name \in {"len", "size_hint", "as_slice", "debug"} -> Res(TRUE, <<>>, <<>>, s, {}, n, FALSE)
+      \* serialising borrows the array and leaves it untouched (what the Serializer saw is a `ser' record)
+      [] name = "serialize" -> Res(TRUE, <<>>, <<>>, s, {}, -1, FALSE)
       [] name = "as_mut_swap" -> Res(TRUE, <<>>, <<s[arg + 1]>>, [s EXCEPT ![arg + 1] = elems[1]], {}, -1, FALSE)
       (* iterator, by value *)
       [] name = "count"     -> Res(TRUE, <<>>, <<>>, <<>>, {}, n, FALSE)
